@@ -1341,6 +1341,10 @@ class Engine:
         """[C(f1(x), f2(x)) for x in <symbolic list>] with C an allocatable class: n fresh objects (ids next..next+n-1) whose
         constructor fields are given pointwise; every existing object keeps its fields (allocation never aliases)"""
         elt = e.elt
+        if isinstance(elt, ast.Name) and isinstance(g.target, ast.Name) and elt.id == g.target.id:
+            # [x for x in L]: a new list holding the SAME objects in the same order (no allocation of elements)
+            yield ("val", SList(lst.n, lst.el, lst.mk), st)
+            return
         if not (isinstance(elt, ast.Call) and isinstance(g.target, ast.Name)):
             raise Unsupported("comprehension over a symbolic list: only constructor maps are supported")
         outs = list(self.expr(elt.func, st))
